@@ -571,6 +571,10 @@ func genMeta(r *runner) {
 			e := sc
 			r.do(mk("config-decode", "in", js(VS{T: "p", E: &e}), "target", "config"))
 		}
+		for _, tg := range []string{"configval", "mapp", "anyp", "intp"} { // the input itself of every kind x every kind of result
+			r.do(mk("config-decode", "in", js(sc), "target", tg))
+			r.do(mk("metadata-decodemetadata", "in", js(sc), "target", tg))
+		}
 		r.do(mk("config-normalize", "in", js(sc)))
 		// every scalar kind as a key of a map[any]any (YAML allows non-string keys, e.g. `.nan: 1`)
 		mk1 := VS{T: "mi", K: []VS{sc}, L: []VS{sv("x")}}
